@@ -163,6 +163,19 @@ pub fn plan(tier: &str) -> Plan {
     for sc in scenarios(false).into_iter().filter(|s| s.closer == Closer::StopDrainKill) {
         units.push(Unit::explore_split(Job::new(format!("fine/c03/{}", sc.name()), fine.clone(), Some(if thorough { 3 } else { 2 }), body(sc, oracle)), 8));
     }
+    // a child's exit seen at the granularity of the child's own steps: the supervisor may pick the terminal
+    // event while the child is still between sending it and publishing Stopped; a stop() of the supervisor
+    // that returns in that window still keeps the supervision handler from starting
+    let fine_child = ExecCfg {
+        filter: Some(std::sync::Arc::new(move |k, _l, t: &vsched::TaskInfo| s_kinds.contains(&k) && (t.role == "closer" || (t.role == "lib" && matches!(t.name.as_deref(), Some("A") | Some("C")))))),
+        ..Default::default()
+    };
+    for kind in [Kind::Send, Kind::Local] {
+        for closer in [Closer::StopAfterChild, Closer::Kill] {
+            let sc = Sc { kind, variant: Variant::Linked, site: Site::Sup, prog: P::Awaits, closer, senders: 1, child: true, pg_event: false, busy_sup: false, sup_drains: false, stale_unlink: false };
+            units.push(Unit::explore_split(Job::new(format!("fine-child/c03/{}", sc.name()), fine_child.clone(), Some(if thorough { 3 } else { 2 }), body(sc, oracle)), 8));
+        }
+    }
     // two concurrent requesters of the same kind: the request holds as soon as either call has returned
     for kind in [Kind::Send, Kind::Local] {
         for closer in [Closer::TwoKillers, Closer::TwoStoppers] {
